@@ -12,21 +12,41 @@ if hasattr(sys, "set_int_max_str_digits"):
     sys.set_int_max_str_digits(0)  # exact rationals of iterated estimators can be long
 
 LEVEL = "proof"
-RULE = ("segmetrics: 1-3 chromosomes, sorted bin tables (abutting / gapped / occasionally overlapping bins), "
-        "segmentations whose boundaries fall on bin edges, inside bins (bin shared by two segments) or in gaps; "
-        "segments with 0, 1, 2, 3, ... 300 bins; log2 styles dyadic / 3-decimal / heavy ties / constant; "
-        "weights in (0,1] incl. exactly 1; every subset of {mean, median, p_ttest} x {stdev, mad, mse, iqr, bivar, sem} "
-        "x {ci, pi}; alpha grid (dyadic and decimal), bootstraps 1..100 (below and above 2/alpha), smoothed on/off, "
-        "skip_low with depth 0 and log2 -20 bins. bintest: same tables, residual 0 / weight 1 bins, antitarget "
-        "bins, overlapping segments, one-bin tables whose adjusted p equals alpha exactly / one ulp above. bh: every vector of length <= 4 over a 6-point grid "
-        "(quick) plus random vectors of length <= 200 with ties, 0 and 1. "
+RULE = ("segmetrics: 1-3 chromosomes, sorted bin tables (abutting / gapped / overlapping bins, bins nested inside the "
+        "previous one so that ends are not monotone), segmentations whose boundaries fall on bin edges, inside bins "
+        "(last bin shared with the next segment; first bin straddling the segment's start) or in gaps (also before the "
+        "segment's first bin); bins between segments that no segment covers; segments with 0, 1, 2, 3, ... 300 bins; "
+        "API tables: segment chromosome blocks in another order than the bins' (35 % of multi-chromosome tables), a bin "
+        "chromosome the segmentation does not mention (also: one segment chromosome of several -- the single-chromosome "
+        "fast path must not fire), chromosome names 1/X/MT/chrUn_.../chr10-before-chr1 (20 %); "
+        "log2 styles dyadic / 3-decimal / heavy ties / constant; weights in (0,1] incl. exactly 1; every subset of "
+        "{mean, median, p_ttest} x {stdev, mad, mse, iqr, bivar, sem} x {ci, pi}; alpha grid (dyadic and decimal), "
+        "bootstraps 1..100 (below and above 2/alpha), smoothed on/off, skip_low with depth 0 and log2 -20 bins (6 % of "
+        "them with most or all bins low: whole segments / the whole table dropped). "
+        "representations (API): bin table / segment table as a filtered subset of a larger table (index labels not "
+        "0..n-1; 40 % / 30 %), extra bin columns gc/rmask/spread, extra segment columns depth/cn/baf(NaN)/cn1/cn2 and "
+        "statistics of an earlier run that are not requested again (must come back unchanged: clause "
+        "segment_columns_unchanged), shuffled column order; empty bin table / empty segment table (corpus). "
+        "call styles (API): every argument by keyword with tuples / lists / all positional / every default-valued argument "
+        "left out (alpha 0.05, bootstraps 100, bintest alpha 0.005 forced in about half of those), interval_stats in either order. "
+        "bintest: same tables, residual 0 / weight 1 bins, antitarget bins, on-target names that resemble the aliases "
+        "(antitarget, Antitarget2, 'Background,G1', -, CGH), tables of nothing but off-target bins with target_only, "
+        "overlapping segments, one-bin tables whose adjusted p equals alpha exactly / one ulp above; hits are mapped "
+        "back from index labels to rows and must carry that row's coordinates and gene. "
+        "bh: every vector of length <= 4 over a 6-point grid "
+        "(quick) plus random vectors of length <= 200 with ties, 0 and 1; handed over as ndarray, list, tuple, strided "
+        "view, int array (when all 0/1) or pandas Series with non-positional labels; the argument must be left unchanged. "
         "command line: about 15 % of the segmetrics and of the bintest cases (and three refused alphas) run "
         "`cnvkit.py segmetrics <cnr> -s <cns> [--mean --median --t-test --stdev --sem --mad --mse --iqr --bivar --ci --pi] "
-        "[-a alpha] [-b bootstraps] [--smooth-bootstrap] [--drop-low-coverage] -o out` / `cnvkit.py bintest <cnr> -s <cns> "
-        "[-a alpha] [-t] -o out` in-process on written .cnr/.cns files (6-digit numbers, rows in the reader's order; long and "
+        "[-a alpha] [-b bootstraps] [--smooth-bootstrap] [--drop-low-coverage] [-o out]` / `cnvkit.py bintest <cnr> -s <cns> "
+        "[-a alpha] [-t] [-o out]` in-process on written .cnr/.cns files (6-digit numbers, rows in the reader's order; long and "
         "short spellings, both argument orders; alpha 0.05 / 100 bootstraps / bintest alpha 0.005 left to the parser's "
-        "defaults in ~30 % of them; both values of every switch), the table handed to the writer is judged like an API "
+        "defaults in ~30 % of them; both values of every switch; 20 % without -o: segmetrics then writes "
+        "S.segmetrics.cns into the working directory, bintest writes to standard output), the table handed to the "
+        "writer is judged like an API "
         "result, the written file must read back equal to it at 1e-5 and the bootstrap interval must equal the API's exactly. "
+        "not generated: bintest without segments (no segment mean to speak of), an empty segment table given to bintest "
+        "(proposed_fixes/C17-bintest-empty-segments.md), segment tables lacking probes/weight columns. "
         "non-trivial = some segment has >= 2 bins and a statistic is requested / some bin is tested / length >= 2; "
         "distinct by hash of the case")
 EXHAUSTIVE = {"quick": False, "thorough": False}
@@ -48,6 +68,7 @@ TRUSTED_EXTRA = [
     "gaussian_kde ('mode' statistic) is not modelled and never requested",
 ]
 
+PY_ONLY = ("repr", "call", "inter_rev", "how", "cli_noout")  # how the real code is called: nothing the model sees
 LOC = ["mean", "median", "p_ttest"]
 SPREAD = ["stdev", "mad", "mse", "iqr", "bivar", "sem"]
 ANTI = ("Antitarget", "Background")
@@ -85,25 +106,104 @@ def _num(x):
     return frac(x)
 
 
-def _mk_bins(i):
+# table representations.  `i["repr"]` (absent = the plain table) says how the two tables are handed to the real
+# code; the model always sees the plain rows:
+#   bsub / ssub   int seed: the table is a filtered SUBSET of a larger one (junk rows interleaved and masked away), so
+#                 its pandas index labels are not 0..n-1 -- what any `cnarr[mask]`, `drop_low_coverage`, `in_range`
+#                 leaves behind
+#   bextra/sextra extra columns next to the ones the functions use (bins: gc, rmask, spread; segments: depth, cn, baf
+#                 with NaNs, cn1, cn2 and statistics of an earlier segmetrics run that this case does not ask for);
+#                 the segment extras must come back unchanged ("the input segments' own columns are unchanged")
+#   bperm / sperm int seed: column order shuffled (the functions address columns by name)
+BIN_EXTRA = ["gc", "rmask", "spread"]
+SEG_EXTRA = ["depth", "cn", "baf", "cn1", "cn2", "ci_lo", "ci_hi", "sem", "mean", "p_ttest"]
+
+
+def _extra_val(col, k):
+    """value of an extra column in row k: short numbers (exact in a 6-digit file), NaN in some baf / cn1 / cn2 rows"""
+    if col in ("cn", "cn1", "cn2"):
+        if col != "cn" and k % 4 == 1:
+            return float("nan")
+        return float((k + len(col)) % 5)
+    if col == "baf":
+        return float("nan") if k % 3 == 0 else 0.125 * (1 + k % 4)
+    if col in ("gc", "rmask"):
+        return 0.25 + 0.0625 * (k % 8)
+    return 0.5 + 0.25 * (k % 7)  # depth, spread, earlier statistics
+
+
+def _mk_table(rows, cols, extra, sub, perm):
+    import random
+    import numpy as np
     from cnvlib.cnary import CopyNumArray as CNA
+    full = [tuple(r) + tuple(_extra_val(c, k) for c in extra) for k, r in enumerate(rows)]
+    cols = list(cols) + list(extra)
+    if not full:
+        # an empty table with the dtypes of a real one: everything filtered out of a one-row table
+        dummy = tuple("chr1" if c == "chromosome" else "-" if c == "gene" else 0 if c in ("start", "end", "probes")
+                      else 0.5 for c in cols)
+        full, mask = [dummy], [False]
+    elif sub is None:
+        mask = None
+    else:
+        rng = random.Random(sub)
+        big, mask = [], []
+        for r in full:
+            for _ in range(rng.choice([0, 1, 1, 2, 3])):
+                j = list(rng.choice(full))
+                j[3] = "junk"
+                big.append(tuple(j))
+                mask.append(False)
+            big.append(r)
+            mask.append(True)
+        if all(mask):
+            big.insert(0, full[-1])
+            mask.insert(0, False)
+        full = big
+    arr = CNA.from_rows(full, columns=cols, meta_dict={"sample_id": "S"})
+    if perm is not None:
+        order = list(cols)
+        random.Random(perm).shuffle(order)
+        arr = CNA(arr.data[order], {"sample_id": "S"})
+    if mask is not None:
+        arr = arr[np.array(mask)]
+    return arr
+
+
+def _mk_bins(i):
+    rp = i.get("repr") or {}
     cols = ["chromosome", "start", "end", "gene", "log2", "weight"]
     has_depth = i.get("has_depth", False)
     if has_depth:
         cols.append("depth")
-    rows = []
-    for r in i["bins_f"]:
-        row = [r[0], r[1], r[2], r[3], r[4], r[5]]
-        if has_depth:
-            row.append(r[6])
-        rows.append(tuple(row))
-    return CNA.from_rows(rows, columns=cols, meta_dict={"sample_id": "S"})
+    rows = [tuple(r[:7] if has_depth else r[:6]) for r in i["bins_f"]]
+    return _mk_table(rows, cols, rp.get("bextra", []), rp.get("bsub"), rp.get("bperm"))
+
+
+def _seg_extra(i):
+    """the extra segment columns of the case that the requested statistics do not (re)compute"""
+    made = set(i.get("loc", [])) | set(i.get("spread", [])) | ({"ci_lo", "ci_hi"} if i.get("ci") else set()) | {
+        "pi_lo", "pi_hi", "p_bintest"}
+    return [c for c in (i.get("repr") or {}).get("sextra", []) if c not in made]
 
 
 def _mk_segs(i):
-    from cnvlib.cnary import CopyNumArray as CNA
+    rp = i.get("repr") or {}
     cols = ["chromosome", "start", "end", "gene", "log2", "probes", "weight"]
-    return CNA.from_rows([tuple(r) for r in i["segs_f"]], columns=cols, meta_dict={"sample_id": "S"})
+    return _mk_table([tuple(r) for r in i["segs_f"]], cols, _seg_extra(i), rp.get("ssub"), rp.get("sperm"))
+
+
+def _extras_kept(i, out):
+    """the extra columns of the segment table are in the result, with the values they had"""
+    import numpy as np
+    for c in _seg_extra(i):
+        if c not in out.data.columns:
+            return False
+        want = np.array([_extra_val(c, k) for k in range(len(i["segs_f"]))], dtype=float)
+        got = np.asarray(out.data[c], dtype=float)
+        if got.shape != want.shape or not np.array_equal(got, want, equal_nan=True):
+            return False
+    return True
 
 
 def _own_rows(d):
@@ -204,7 +304,8 @@ def _round6(bins, segs, has_depth):
 
 def _argv(op, i, fb, fs, fo):
     """command line of the case.  cli_style bit 0: long / short spellings, bit 1: bin table first / last;
-    cli_implicit: options left out because the case uses the parser's default"""
+    cli_implicit: options left out because the case uses the parser's default; cli_noout: no -o (segmetrics then
+    writes <sample>.segmetrics.cns into the working directory, bintest writes to standard output)"""
     style = i.get("cli_style", 0)
     implicit = i.get("cli_implicit", [])
     long_ = bool(style & 1)
@@ -224,7 +325,8 @@ def _argv(op, i, fb, fs, fo):
         if "alpha" not in implicit:
             opts += ["--alpha", repr(i["alpha_f"])] if long_ else ["-a", repr(i["alpha_f"])]
         opts += (["--target"] if long_ else ["-t"]) if i["target_only"] else []
-    opts += ["--output" if long_ else "-o", fo]
+    if not i.get("cli_noout"):
+        opts += ["--output" if long_ else "-o", fo]
     return [op] + ([fb] + opts if style & 2 else opts + [fb])
 
 
@@ -294,10 +396,24 @@ def _cli(op, i):
                 return tabio.write(garr, outfname, *a, **k)
         saved = commands.tabio
         commands.tabio = _Tab()
+        cwd = os.getcwd()
         try:
             args = commands.parse_args(_argv(op, i, fb, fs, fo))
-            args.func(args)
+            if i.get("cli_noout"):
+                import contextlib
+                os.chdir(d)
+                if op == "segmetrics":
+                    fo = os.path.join(d, "S.segmetrics.cns")  # the sample's name comes from the file name S.cns
+                    args.func(args)
+                    captured = [(g, os.path.join(d, n) if isinstance(n, str) else n) for g, n in captured]
+                else:
+                    with open(fo, "w") as h, contextlib.redirect_stdout(h):
+                        args.func(args)
+                        captured = [(g, fo if n is h else n) for g, n in captured]
+            else:
+                args.func(args)
         finally:
+            os.chdir(cwd)
             commands.tabio = saved
         if len(captured) != 1 or captured[0][1] != fo or not os.path.exists(fo):
             raise AssertionError(f"cnvkit.py {op} did not write exactly one table to the requested output")
@@ -321,32 +437,90 @@ def _cli(op, i):
         shutil.rmtree(d, ignore_errors=True)
 
 
+def _call_segmetrics(cn, sg, i):
+    """do_segmetrics in the case's call style: kw (every argument by keyword, tuples), list (lists, as the command
+    line passes them), pos (everything positional), omit (every argument that has its default value left out)"""
+    from cnvlib import segmetrics
+    inter = (["ci"] if i["ci"] else []) + (["pi"] if i["pi"] else [])
+    if i.get("inter_rev"):
+        inter.reverse()
+    style = i.get("call", "kw")
+    seq = list if style in ("list", "pos") else tuple
+    vals = [("location_stats", seq(i["loc"]), ()), ("spread_stats", seq(i["spread"]), ()),
+            ("interval_stats", seq(inter), ()), ("alpha", i["alpha_f"], 0.05), ("bootstraps", i["bootstraps"], 100),
+            ("smoothed", i["smoothed"], False), ("skip_low", i["skip_low"], False)]
+    if style == "pos":
+        return segmetrics.do_segmetrics(cn, sg, *[v for _n, v, _d in vals])
+    if style == "omit":
+        vals = [(n, v, d) for n, v, d in vals if not (v == d or (d == () and not v))]
+    return segmetrics.do_segmetrics(cn, sg, **{n: v for n, v, _d in vals})
+
+
+def _call_bintest(cn, sg, i):
+    from cnvlib import bintest
+    style = i.get("call", "kw")
+    if style == "pos":
+        return bintest.do_bintest(cn, sg, i["alpha_f"], i["target_only"])
+    kw = {"alpha": i["alpha_f"], "target_only": i["target_only"]}
+    if style == "omit":
+        if kw["alpha"] == 0.005:
+            del kw["alpha"]
+        if not kw["target_only"]:
+            del kw["target_only"]
+        return bintest.do_bintest(cn, segments=sg, **kw)
+    return bintest.do_bintest(cn, sg, **kw)
+
+
+def _bh_arg(p, how):
+    """the p-value vector in the representation of the case"""
+    import numpy as np
+    import pandas as pd
+    if how == "list":
+        return list(p)
+    if how == "tuple":
+        return tuple(p)
+    if how == "series":
+        # a column of a filtered table: labels are not positions (here even out of order)
+        n = len(p)
+        return pd.Series(list(p), index=[(7 * k + 3) % (n + 5) + 100 * (k % 2) for k in range(n)])
+    if how == "int" and all(x in (0.0, 1.0) for x in p):
+        return np.array([int(x) for x in p], dtype=np.int64)
+    if how == "strided":
+        big = np.zeros(2 * len(p), dtype=float)
+        big[::2] = p
+        return big[::2]
+    return np.array(p, dtype=float)
+
+
 def run_impl(case):
     import numpy as np
-    from cnvlib import segmetrics, bintest
+    from cnvlib import bintest
 
     i = case["in"]
     op = case["op"]
     if op == "bh":
-        q = bintest.p_adjust_bh(np.array(i["p_f"], dtype=float))
-        return [_num(x) for x in q]
+        arg = _bh_arg(i["p_f"], i.get("how"))
+        keep = arg.copy() if hasattr(arg, "copy") else arg
+        q = bintest.p_adjust_bh(arg)
+        if not (len(arg) == len(keep) and all(float(x) == float(y) for x, y in zip(list(arg), list(keep)))):
+            raise AssertionError("p_adjust_bh changed its argument")
+        return [_num(x) for x in np.asarray(q, dtype=float)]
     cn = _mk_bins(i)
     sg = _mk_segs(i)
     cn0, sg0 = cn.data.copy(), sg.data.copy()
     if op == "segmetrics":
-        inter = (["ci"] if i["ci"] else []) + (["pi"] if i["pi"] else [])
-        kw = dict(location_stats=tuple(i["loc"]), spread_stats=tuple(i["spread"]), interval_stats=tuple(inter),
-                  alpha=i["alpha_f"], bootstraps=i["bootstraps"], smoothed=i["smoothed"], skip_low=i["skip_low"])
         if i.get("cli"):
             out, unmut = _cli(op, i)  # unmut: the command left its input files alone
         else:
-            out = segmetrics.do_segmetrics(cn, sg, **kw)
+            out = _call_segmetrics(cn, sg, i)
             unmut = bool(cn.data.equals(cn0) and sg.data.equals(sg0))
+        # the extra columns of the segment table belong to "the input segments' own columns"
+        unmut = unmut and _extras_kept(i, out)
         # consume some global RNG state, then run again: the result must not depend on it.  (The re-run goes
         # through the API also for a CLI case: the bootstrap reseeds before drawing, so command line and API must
         # give the very same interval.)
         np.random.random(3)
-        out2 = segmetrics.do_segmetrics(cn, sg, **kw)
+        out2 = _call_segmetrics(cn, sg, dict(i, call="kw"))
         names = list(i["loc"]) + list(i["spread"]) + (["ci_lo", "ci_hi"] if i["ci"] else []) + (
             ["pi_lo", "pi_hi"] if i["pi"] else [])
 
@@ -359,18 +533,29 @@ def run_impl(case):
     if op == "bintest":
         if i.get("cli"):
             out, unmut = _cli(op, i)
+            labels = list(range(len(i["bins_f"])))  # the command read the file: labels are positions
         else:
-            out = bintest.do_bintest(cn, sg, alpha=i["alpha_f"], target_only=i["target_only"])
+            out = _call_bintest(cn, sg, i)
             unmut = bool(cn.data.equals(cn0) and sg.data.equals(sg0))
+            labels = [int(x) for x in cn.data.index]
         d = out.data
-        hits = [[int(lab), _num(l), _num(p)] for lab, l, p in zip(d.index, d["log2"], d["p_bintest"])]
+        # the model names a bin by its position in the table; a label the input does not have names no bin
+        pos = {lab: k for k, lab in enumerate(labels)}
+        hits = [[pos.get(int(lab), len(labels) + abs(int(lab))), _num(l), _num(p)]
+                for lab, l, p in zip(d.index, d["log2"], d["p_bintest"])]
+        # a hit is a row of the bin table: its coordinates and gene are that bin's
+        for h, c, s, e, g in zip(hits, d["chromosome"], d["start"], d["end"], d["gene"]):
+            if h[0] < len(labels):
+                b = i["bins_f"][h[0]]
+                if [str(c), int(s), int(e), str(g)] != [b[0], b[1], b[2], b[3]]:
+                    h[0] = len(labels) + h[0]
         return {"hits": hits, "input_unmutated": unmut, "_params": _params_bintest(i)}
     raise ValueError(op)
 
 
 def to_line(case, impl):
     i = case["in"]
-    line = {"op": case["op"], "in": {k: v for k, v in i.items() if not k.endswith("_f")}}
+    line = {"op": case["op"], "in": {k: v for k, v in i.items() if not k.endswith("_f") and k not in PY_ONLY}}
     err = isinstance(impl, dict) and "__error__" in impl
     if case["op"] == "bh":
         if not err:
@@ -538,12 +723,36 @@ def _weight(rng, wstyle):
     return round(rng.uniform(0.02, 1.0), rng.choice([2, 4, 9]))
 
 
-def _tables(rng, sizes, anti_p=0.0, low_p=0.0, has_depth=False, overlap_p=0.0, straddle_p=0.3):
-    """bins + a segmentation of them.  sizes: callable giving the number of bins of the next segment."""
+DECOYS = ["antitarget", "Antitarget2", "BACKGROUND", "Background,G1", "G1,Antitarget", "-", ".", "CGH"]  # on-target names
+CHROM_NAMES = [{"chr1": "1", "chr2": "2", "chrX": "X", "chr7": "7", "chr9": "9"},
+               {"chr1": "Chr1", "chr2": "chr2_random", "chrX": "x", "chr7": "chrUn_gl000220", "chr9": "MT"},
+               {"chr1": "chr10", "chr2": "chr1", "chrX": "chrY", "chr7": "chr2", "chr9": "chrX"}]
+
+
+def _tables(rng, sizes, anti_p=0.0, low_p=0.0, has_depth=False, overlap_p=0.0, straddle_p=0.3, api=False):
+    """bins + a segmentation of them.  sizes: callable giving the number of bins of the next segment.
+    api: the tables go to the functions directly (not through files, whose reader sorts the chromosomes): segment
+    chromosome blocks may come in another order than the bins', chromosome names need not look like chrN."""
     chroms = rng.sample(["chr1", "chr2", "chrX", "chr7"], rng.randint(1, 3))
     style_all = rng.choice(["dyadic", "ties", "round3", "gauss", "mixed"])
     wstyle = rng.choice(["any", "any", "dyadic", "ones"])
+    # structural cells, each switched on for a share of the tables
+    nest_p = 0.15 if rng.random() < 0.2 else 0.0      # a bin nested inside the previous one (ends not monotone)
+    gapstart_p = 0.3 if rng.random() < 0.35 else 0.0  # segment starts in the gap before its first bin
+    startin_p = 0.3 if rng.random() < 0.35 else 0.0   # segment starts inside its first bin
+    orphan_p = 0.3 if rng.random() < 0.25 else 0.0    # bins between two segments / after the last that no segment covers
+    decoy_p = 0.15 if (anti_p and rng.random() < 0.5) else 0.0
     bins, segs = [], []
+
+    def add_bin(c, start, end, lg):
+        depth = 0.0 if (has_depth and rng.random() < low_p) else round(2.0 ** min(lg, 8), 4) + 0.5
+        k = rng.random()
+        gene = rng.choice(ANTI) if k < anti_p else rng.choice(DECOYS) if k < anti_p + decoy_p else f"G{len(bins) // 3}"
+        row = [c, start, end, gene, lg, _weight(rng, wstyle)]
+        if has_depth:
+            row.append(depth)
+        bins.append(row)
+
     for c in chroms:
         pos = rng.choice([0, 0, rng.randint(1, 5000)])
         nseg = rng.randint(1, 4)
@@ -552,19 +761,20 @@ def _tables(rng, sizes, anti_p=0.0, low_p=0.0, has_depth=False, overlap_p=0.0, s
             style = style_all if style_all != "mixed" else rng.choice(["dyadic", "ties", "round3", "gauss", "const"])
             level = rng.choice([0.0, 0.5, -1.0, round(rng.gauss(0, 0.6), 2)])
             seg_start = pos
+            if nb and rng.random() < gapstart_p:
+                pos += rng.randint(1, 40)
             first = len(bins)
             for _b in range(nb):
                 sz = rng.randint(10, 200)
                 lg = _value(rng, style, level)
                 if rng.random() < low_p:
                     lg = rng.choice([-20.0, -15.5, -15.0, -27.0])
-                depth = 0.0 if (has_depth and rng.random() < low_p) else round(2.0 ** min(lg, 8), 4) + 0.5
-                gene = rng.choice(ANTI) if rng.random() < anti_p else f"G{len(bins) // 3}"
-                row = [c, pos, pos + sz, gene, lg, _weight(rng, wstyle)]
-                if has_depth:
-                    row.append(depth)
-                bins.append(row)
-                if rng.random() < overlap_p and nb > 1:
+                add_bin(c, pos, pos + sz, lg)
+                nested = sz >= 12 and rng.random() < nest_p
+                if nested:
+                    ns = rng.randint(pos + 1, pos + sz - 3)
+                    add_bin(c, ns, rng.randint(ns + 1, pos + sz - rng.choice([0, 1])), _value(rng, style, level))
+                if rng.random() < overlap_p and nb > 1 and not nested:
                     pos += max(1, sz - rng.randint(1, 5))  # next bin overlaps this one slightly
                 else:
                     pos += sz + rng.choice([0, 0, rng.randint(1, 40)])
@@ -582,15 +792,37 @@ def _tables(rng, sizes, anti_p=0.0, low_p=0.0, has_depth=False, overlap_p=0.0, s
             # boundary placement: on the edge, inside the last bin (shared), or in the gap
             if mine and rng.random() < straddle_p and mine[-1][2] - mine[-1][1] > 2:
                 seg_end = rng.randint(mine[-1][1] + 1, mine[-1][2] - 1)
+            if mine and seg_start == mine[0][1] and rng.random() < startin_p and mine[0][2] - mine[0][1] > 2:
+                st = rng.randint(mine[0][1] + 1, mine[0][2] - 1)  # the first bin straddles the segment's start
+                if st < seg_end:
+                    seg_start = st
             segs.append([c, seg_start, seg_end, "-", slog, len(mine), round(rng.uniform(1, 50), 3)])
-            pos = max(pos, seg_end) if rng.random() < 0.8 else seg_end  # sometimes the next bins start inside
-            pos = max(pos, seg_end)
-        if rng.random() < 0.1:
-            # a segment on a chromosome without bins
-            pass
+            # mostly the next bins start after the last bin; sometimes at the segment end inside a shared bin
+            pos = max(pos, seg_end) if rng.random() < 0.8 else seg_end
+            if rng.random() < orphan_p:
+                for _o in range(rng.randint(1, 3)):
+                    sz = rng.randint(10, 120)
+                    add_bin(c, pos, pos + sz, _value(rng, style_all if style_all != "mixed" else "gauss", level))
+                    pos += sz + rng.choice([0, rng.randint(1, 30)])
     if rng.random() < 0.12:
         segs.append(["chr9", 0, 1000, "-", 0.25, 0, 1.0])
-    # segment starts must not precede the previous end for a "segmentation"; keep chromosome blocks
+    if api:
+        present = [c for c in chroms]
+        if len(present) >= 2 and rng.random() < 0.35:
+            # the segment table lists the chromosomes in another order than the bin table
+            order = present[:] + (["chr9"] if segs[-1][0] == "chr9" else [])
+            rng.shuffle(order)
+            segs = [sg for c in order for sg in segs if sg[0] == c]
+        if len(present) >= 2 and rng.random() < 0.15:
+            # a chromosome of the bin table that the segmentation does not mention at all
+            gone = rng.choice(present)
+            if any(b[0] == gone for b in bins) and any(sg[0] != gone for sg in segs):
+                segs = [sg for sg in segs if sg[0] != gone]
+        if rng.random() < 0.2:
+            ren = rng.choice(CHROM_NAMES)
+            for t in (bins, segs):
+                for r in t:
+                    r[0] = ren[r[0]]
     return bins, segs
 
 
@@ -649,6 +881,25 @@ def _bivar_cost(bins, segs):
     return total
 
 
+def _repr(rng, cli, seg_extra=True):
+    """how the tables are handed over (see _mk_table).  A command-line case writes them to files first: only extra
+    columns and column order survive that"""
+    rp = {}
+    if not cli and rng.random() < 0.4:
+        rp["bsub"] = rng.randrange(10 ** 6)
+    if not cli and rng.random() < 0.3:
+        rp["ssub"] = rng.randrange(10 ** 6)
+    if rng.random() < 0.25:
+        rp["bextra"] = [c for c in BIN_EXTRA if rng.random() < 0.6]
+    if seg_extra and rng.random() < 0.3:
+        rp["sextra"] = [c for c in SEG_EXTRA if rng.random() < 0.4]
+    if rng.random() < 0.15:
+        rp["bperm"] = rng.randrange(10 ** 6)
+    if rng.random() < 0.15:
+        rp["sperm"] = rng.randrange(10 ** 6)
+    return rp
+
+
 ALPHAS = [0.5, 0.25, 0.125, 0.05, 0.1, 0.2, 0.3, 0.4, 0.01, 0.9, 2.0 / 3.0]
 
 
@@ -660,6 +911,13 @@ def _segmetrics_case(rng, big=False, tag=None, cli=False):
     alpha = rng.choice(ALPHAS)
     bootstraps = rng.choice([1, 3, 4, 5, 8, 10, 20, 40, 41, 100])
     implicit = []
+    call = "kw" if cli else rng.choice(["kw", "kw", "list", "pos", "omit", "omit"])
+    if call == "omit":
+        # the API's own defaults (alpha=0.05, bootstraps=100) are only exercised when the case has those values
+        if rng.random() < 0.6:
+            alpha = 0.05
+        if rng.random() < 0.6:
+            bootstraps = 100
     if cli and rng.random() < 0.3:
         alpha = 0.05  # P_segmetrics --alpha default
         implicit.append("alpha")
@@ -683,10 +941,13 @@ def _segmetrics_case(rng, big=False, tag=None, cli=False):
 
     skip_low = rng.random() < 0.3
     has_depth = rng.random() < 0.4
-    bins, segs = _tables(rng, sizes, low_p=0.08 if skip_low or rng.random() < 0.2 else 0.0, has_depth=has_depth,
-                         overlap_p=0.05 if rng.random() < 0.2 else 0.0)
+    low_p = 0.08 if skip_low or rng.random() < 0.2 else 0.0
+    if skip_low and rng.random() < 0.06:
+        low_p = rng.choice([0.6, 1.0])  # whole segments (or the whole table) dropped as low coverage
+    bins, segs = _tables(rng, sizes, low_p=low_p, has_depth=has_depth,
+                         overlap_p=0.05 if rng.random() < 0.2 else 0.0, api=not cli)
     if not bins:
-        bins, segs = _tables(rng, lambda: 3, has_depth=has_depth)
+        bins, segs = _tables(rng, lambda: 3, has_depth=has_depth, api=not cli)
     if cli:
         _round6(bins, segs, has_depth)
     loc = [s for s in LOC if rng.random() < 0.5]
@@ -702,21 +963,28 @@ def _segmetrics_case(rng, big=False, tag=None, cli=False):
     i.update({"loc": loc, "spread": spread, "ci": want_ci, "pi": rng.random() < 0.5,
               "alpha": frac(alpha), "alpha_f": alpha, "two_over_alpha": frac(2 / alpha),
               "bootstraps": bootstraps, "smoothed": want_ci and rng.random() < 0.3, "skip_low": skip_low})
+    if call == "omit" and rng.random() < 0.5:
+        i.update({"smoothed": False, "skip_low": False} if rng.random() < 0.5 else {"smoothed": False})
+    i.update({"call": call, "inter_rev": rng.random() < 0.3, "repr": _repr(rng, cli)})
     tag = tag or ("big" if big else ("ci" if want_ci else "stats"))
     if cli:
         if not (loc or spread or i["ci"] or i["pi"]):
             i["loc"] = [rng.choice(LOC)]  # the command writes nothing when no statistic is asked for
         i.update({"cli": True, "cli_implicit": implicit, "cli_style": rng.randrange(4)})
+        if rng.random() < 0.2:
+            i["cli_noout"] = True
         tag = "cli-" + tag
     return {"op": "segmetrics", "tag": tag, "in": i}
 
 
 def _bintest_case(rng, tag="bintest", cli=False):
     pool = [0, 1, 1, 2, 3, 5, 8, 15, 30, 60]
-    bins, segs = _tables(rng, lambda: rng.choice(pool), anti_p=0.3 if rng.random() < 0.6 else 0.0,
-                         straddle_p=0.25)
+    anti_p = 0.3 if rng.random() < 0.6 else 0.0
+    if rng.random() < 0.04:
+        anti_p = 1.0  # nothing but off-target bins: `target_only` leaves nothing to test
+    bins, segs = _tables(rng, lambda: rng.choice(pool), anti_p=anti_p, straddle_p=0.25, api=not cli)
     if not bins:
-        bins, segs = _tables(rng, lambda: 4, anti_p=0.3)
+        bins, segs = _tables(rng, lambda: 4, anti_p=0.3, api=not cli)
     # spikes: a few bins far from their segment
     for b in bins:
         if rng.random() < 0.08:
@@ -737,12 +1005,17 @@ def _bintest_case(rng, tag="bintest", cli=False):
     i = _pack(bins, segs, False)
     alpha = rng.choice([0.005, 0.05, 0.5, 0.25, 0.001, 0.9])
     i.update({"alpha": frac(alpha), "alpha_f": alpha, "target_only": rng.random() < 0.5})
+    i.update({"call": "kw" if cli else rng.choice(["kw", "pos", "omit"]), "repr": _repr(rng, cli, seg_extra=False)})
+    if i["call"] == "omit" and rng.random() < 0.5:
+        i.update({"alpha": frac(0.005), "alpha_f": 0.005})  # do_bintest's own default
     if cli:
         implicit = []
         if rng.random() < 0.3:
             i.update({"alpha": frac(0.005), "alpha_f": 0.005})  # P_bintest --alpha default
             implicit.append("alpha")
         i.update({"cli": True, "cli_implicit": implicit, "cli_style": rng.randrange(4)})
+        if rng.random() < 0.2:
+            i["cli_noout"] = True
         tag = "cli-" + tag
     return {"op": "bintest", "tag": tag, "in": i}
 
@@ -773,16 +1046,22 @@ def _bintest_at_alpha(rng, cli=False):
 GRID = [0.0, 0.01, 0.04, 0.2, 0.5, 1.0]
 
 
-def _bh_case(p, tag):
-    return {"op": "bh", "tag": tag, "in": {"p": [frac(x) for x in p], "p_f": list(p)}}
+BH_HOW = ["array", "array", "list", "tuple", "series", "int", "strided"]
+
+
+def _bh_case(p, tag, how=None):
+    i = {"p": [frac(x) for x in p], "p_f": list(p)}
+    if how and how != "array":
+        i["how"] = how
+    return {"op": "bh", "tag": tag, "in": i}
 
 
 def _bh_exhaustive(maxlen):
     import itertools
     out = []
     for n in range(1, maxlen + 1):
-        for p in itertools.product(GRID, repeat=n):
-            out.append(_bh_case(list(p), f"grid{n}"))
+        for k, p in enumerate(itertools.product(GRID, repeat=n)):
+            out.append(_bh_case(list(p), f"grid{n}", BH_HOW[(k + n) % len(BH_HOW)]))
     return out
 
 
@@ -796,7 +1075,7 @@ def _bh_random(rng):
     else:
         base = [rng.random() for _ in range(max(1, n // 3))]
         p = [rng.choice(base + [0.0, 1.0]) for _ in range(n)]
-    return _bh_case(p, "random")
+    return _bh_case(p, "random", rng.choice(BH_HOW))
 
 
 def corpus():
@@ -821,7 +1100,26 @@ def corpus():
     i = _pack(b, s, False)
     i.update({"alpha": frac(0.05), "alpha_f": 0.05, "target_only": False})
     x = {"op": "bintest", "tag": "corpus-X", "in": i}
-    return [m, t, x]
+    # tables without rows (with the column types of a real table: everything filtered out): no bin at all / no
+    # segment at all
+    out = [m, t, x]
+    b = [["chr1", 0, 100, "a", 0.5, 0.5], ["chr1", 100, 200, "b", 3.0, 0.5], ["chr2", 0, 50, "c", -1.0, 0.25]]
+    s = [["chr1", 0, 200, "-", 0.25, 2, 1.0], ["chr2", 0, 50, "-", -1.0, 1, 1.0]]
+    for bb, ss, tag in (([], s, "no-bins"), (b, [], "no-segments")):
+        i = _pack(bb, ss, False)
+        i.update({"loc": list(LOC), "spread": list(SPREAD), "ci": True, "pi": True, "alpha": frac(0.25),
+                  "alpha_f": 0.25, "two_over_alpha": frac(8.0), "bootstraps": 10, "smoothed": False,
+                  "skip_low": tag == "no-bins"})
+        out.append({"op": "segmetrics", "tag": tag, "in": i})
+        if tag == "no-segments":
+            # do_bintest treats an EMPTY segment table like `segments=None` (residuals() tests `if not segments`) and
+            # falls back to the residuals from each chromosome's median; a segmentation without segments is outside
+            # the quantifier ("segmentations of them"): see proposed_fixes/C17-bintest-empty-segments.md
+            continue
+        i = _pack(bb, ss, False)
+        i.update({"alpha": frac(0.5), "alpha_f": 0.5, "target_only": tag == "no-bins"})
+        out.append({"op": "bintest", "tag": tag, "in": i})
+    return out
 
 
 def smoothed_witness():
@@ -889,7 +1187,7 @@ def shrink(case):
         for k in range(len(p)):
             q = p[:k] + p[k + 1:]
             if q:
-                yield _bh_case(q, case.get("tag"))
+                yield _bh_case(q, case.get("tag"), i.get("how"))
         return
 
     def rebuild(bins, segs, **over):
